@@ -677,7 +677,81 @@ func c07r5(c *Ctx) {
 					}
 				}
 			})
-			for _, t := range []struct {
+			// every place where the loop collects the element lies behind each of the three tests: no path from the
+			// loop head reaches it without evaluating the test (a test that only guards a sibling branch filters nothing)
+			testNodes := [3]map[*cfgx.Node]bool{{}, {}, {}}
+			ir.Walk(rs.Body, false, func(y ast.Node) {
+				mark := func(i int) {
+					if n := g.NodeContaining(y.Pos()); n != nil {
+						testNodes[i][n] = true
+					}
+				}
+				switch y := y.(type) {
+				case *ast.CallExpr:
+					for _, lf := range isLockedFns {
+						if m.Callee(y) == lf && len(y.Args) == 1 && m.MentionsObj(y.Args[0], false, elem) {
+							mark(0)
+						}
+					}
+				case *ast.IndexExpr:
+					if !m.MentionsObj(y.Index, false, elem) {
+						return
+					}
+					if m.FieldOf(y.X) == locked {
+						mark(0)
+					} else if m.FieldOf(y.X) == nil {
+						if mt, ok := m.TypeOf(y.X).Underlying().(*types.Map); ok {
+							if e, ok := mt.Elem().Underlying().(*types.Basic); ok && e.Kind() == types.Bool {
+								mark(1)
+							} else if e, ok := mt.Elem().Underlying().(*types.Struct); ok && e.NumFields() == 0 {
+								mark(1)
+							}
+						}
+					}
+				case *ast.BinaryExpr:
+					switch y.Op {
+					case token.LSS, token.GTR, token.LEQ, token.GEQ:
+						if (m.FieldOf(y.X) == maturity && m.MentionsObj(y.X, false, elem)) || (m.FieldOf(y.Y) == maturity && m.MentionsObj(y.Y, false, elem)) {
+							mark(2)
+						}
+					}
+				}
+			})
+			var collects []*cfgx.Node
+			ir.Walk(rs.Body, false, func(y ast.Node) {
+				ce, ok := y.(*ast.CallExpr)
+				if !ok || len(ce.Args) < 2 {
+					return
+				}
+				if id, ok := ast.Unparen(ce.Fun).(*ast.Ident); !ok || id.Name != "append" || m.ObjOf(id) == nil || m.ObjOf(id).Pkg() != nil {
+					return
+				}
+				for _, a := range ce.Args[1:] {
+					if m.MentionsObj(a, false, elem) {
+						if n := g.NodeContaining(ce.Pos()); n != nil {
+							collects = append(collects, n)
+						}
+					}
+				}
+			})
+			var into []*cfgx.Edge
+			if head != nil {
+				into = head.Succs
+			}
+			bypass := [3]*cfgx.Node{}
+			for i := range testNodes {
+				if len(testNodes[i]) == 0 || len(collects) == 0 {
+					continue
+				}
+				i := i
+				reach := m.ReachableFromEdges(into, func(n *cfgx.Node) bool { return testNodes[i][n] })
+				for _, cn := range collects {
+					if _, ok := reach[cn]; ok && !testNodes[i][cn] {
+						bypass[i] = cn
+					}
+				}
+			}
+			for i, t := range []struct {
 				ok   bool
 				role string
 				msg  string
@@ -687,6 +761,10 @@ func c07r5(c *Ctx) {
 				{has3, "filter-immature", "immature outputs are admitted"},
 			} {
 				ob := c.Ob(m, t.role, rs.Pos())
+				if t.ok && bypass[i] != nil {
+					ob.Bad(nil, "the loop over stored outputs at %s collects the element at %s on a path that never evaluates the %s test (the test guards only a sibling branch): %s", c.P.Pos(rs.Pos()), c.P.Pos(bypass[i].Pos()), t.role, t.msg)
+					continue
+				}
 				ob.Check(t.ok, nil, "the loop over stored outputs at %s has no %s test on the element: %s, so this view disagrees with the other views and selection", c.P.Pos(rs.Pos()), t.role, t.msg)
 			}
 		})
